@@ -220,7 +220,9 @@ def run_jobs(jobs, timeout=1500):
         if not todo:
             break
         send = [{k: v for k, v in j.items() if not k.startswith("_")} for j in todo]
-        outs = vlib.run_driver(DRIVER, send, timeout=timeout, parallel=NPROC)
+        # trees with mount points need a private mount namespace for the driver
+        need_ns = any(n.get("par") and n["dev"] != j["nodes"][n["par"] - 1]["dev"] for j in send for n in j["nodes"])
+        outs = vlib.run_driver(DRIVER, send, timeout=timeout, parallel=NPROC, prefix=["unshare", "-m"] if need_ns else None)
         nxt = []
         progressed = False
         for j, o in zip(todo, outs):
@@ -463,12 +465,14 @@ def main(tier):
         plan = [("C06_unit", dict(perturb_every=4, t16_every=3, workers=4)),
                 ("C06_roots", dict(perturb_every=1, workers=2)),
                 ("C06_dev", dict(perturb_every=4, t16_every=3, workers=3)),
+                ("C06_mount", dict(perturb_every=4, t16_every=3, workers=2)),
                 ("C06_ign4", dict(perturb_every=8, t16_every=8, workers=3)),
                 ("C06_rand", dict(simulate=107, depth=12, perturb_every=1, workers=3))]   # simulate = traces per worker
     else:
         plan = [("C06_unit_deep", dict(perturb_every=1, workers=3)),
                 ("C06_small", dict(perturb_every=2, workers=3)),
                 ("C06_dev", dict(perturb_every=1, workers=3)),
+                ("C06_mount", dict(perturb_every=1, workers=3)),
                 ("C06_ign4", dict(perturb_every=2, t16_every=2, workers=3)),
                 ("C06_deep", dict(perturb_every=4, t16_every=2, timeout=2400, workers=4)),
                 ("C06_rand", dict(simulate=1067, depth=12, perturb_every=1, timeout=2400, workers=3))]
@@ -495,7 +499,8 @@ def replay(path):
     environment()
     job = {"id": 0, "nodes": scn["t"], "roots": scn["r"], "cases": [case_of(scn["o"])], "threads": THREADS,
            "perturb": [4], "seed": vlib.seed()}
-    out = vlib.run_driver(DRIVER, [job])[0]
+    need_ns = any(n.get("par") and n["dev"] != scn["t"][n["par"] - 1]["dev"] for n in scn["t"])
+    out = vlib.run_driver(DRIVER, [job], prefix=["unshare", "-m"] if need_ns else None)[0]
     o = out["cases"][0]
     bad = judge_case(scn, o)
     # deviations that are pending / known findings are not violations
